@@ -76,7 +76,13 @@ func TestC13(t *testing.T) {
 	st := StatsFor("C13")
 	mode := ValueGenMode{EnvChance: 3, CliMax: 2, ValidOnly: false, OneOnly: true, CliZero: 2}
 	rapid.Check(t, func(rt *rapid.T) {
-		c := GenValueCase(rt, mode)
+		m := mode
+		// a third of the cases carry several containers: a failed conversion of one must not be lost because another one converts
+		m.OneOnly = !chance(rt, 1, 3, "several")
+		c := GenValueCase(rt, m)
+		if len(c.Cs) > 1 {
+			st.Class("app:several-containers")
+		}
 		v, res := CheckValues("C13", c, st)
 		Report(rt, "C13", "values", c, v)
 		nt := false
@@ -165,5 +171,16 @@ func TestC15(t *testing.T) {
 		if nt {
 			st.NonTrivial(vkey(c), vbrief(c))
 		}
+	})
+}
+
+// TestC15Parse: the flag on arbitrary (ambiguous, backtracking) specs, where a container can be tried on a branch the
+// parser abandons.
+func TestC15Parse(t *testing.T) {
+	st := StatsFor("C15")
+	cfg := GenCfg{Depth: 3, Env: true, DD: true}
+	rapid.Check(t, func(rt *rapid.T) {
+		c := GenParseCase(rt, cfg)
+		Report(rt, "C15", "parse", c, CheckC15Parse(c, st))
 	})
 }
